@@ -1,6 +1,8 @@
 //! Program generator for C20: one `rec_lambda!` invocation and one hand-written recursive `fn` per shape,
 //! both with the SAME body text (only the spelling of the recursive call differs: `f!(e1, e2)` /
-//! `f!(e1, e2,)` in the macro version, `hand(e1, e2, <captures in written order>)` in the hand version).
+//! `f!(e1, e2,)` in the macro version, `hand(e1, e2, <captures in written order>)` in the hand version),
+//! and a driver per shape that calls both in the same way.  The shapes of a run are spread over several
+//! library crates (compiled at the same time) that one binary links and runs.
 
 use serde::{Deserialize, Serialize};
 
@@ -8,7 +10,7 @@ use serde::{Deserialize, Serialize};
 pub struct Shape {
     /// captures in the order written in the invocation; true = `&mut`, false = `&`
     pub caps: Vec<bool>,
-    /// number of lambda arguments, 1..=4 (types i64, i64, u32, bool)
+    /// number of lambda arguments, 1..=4 (types i64, i64, u32, bool unless `types` says otherwise)
     pub nargs: usize,
     /// `-> i64` present
     pub ret: bool,
@@ -19,11 +21,21 @@ pub struct Shape {
     /// 'D' argument expressions with effects: a recursive call nested in an argument of a recursive call
     /// (also as a statement of a block argument when there is no return value), arguments that are blocks
     /// mutating every mutable capture before yielding their value, and an argument computed from a value
-    /// popped off a mutable Vec capture
+    /// popped off a mutable Vec capture;
+    /// 'T' typed arguments: two recursive calls after an early return, over arguments of the classes in `types`
     pub body: char,
+    /// body template 'T' only: the type class of every argument, one letter per argument —
+    /// I `i64`, B `bool`, S `&[i64]` (shared slice), M `&mut Vec<i64>` (a mutable reference passed as an
+    /// ARGUMENT and re-borrowed in the recursive calls), O owned and moved in (`Vec<i64>` at the 1st/3rd
+    /// position, `String` at the 2nd/4th).  Empty for the other templates (fixed types i64, i64, u32, bool).
+    #[serde(default, skip_serializing_if = "String::is_empty")]
+    pub types: String,
 }
 
 pub const ARG_TYPES: [&str; 4] = ["i64", "i64", "u32", "bool"];
+pub const CLASSES: [char; 5] = ['I', 'B', 'S', 'M', 'O'];
+/// (return type present, trailing comma)
+const COMBOS: [(bool, bool); 4] = [(false, false), (false, true), (true, false), (true, true)];
 pub type Tuple = (i64, i64, u32, bool);
 
 impl Shape {
@@ -34,9 +46,10 @@ impl Shape {
             self.caps.iter().map(|&m| if m { "&mut" } else { "&" }).collect::<Vec<_>>().join(",")
         };
         format!(
-            "caps={}/args={}/ret={}/call={}/body={}",
+            "caps={}/args={}{}/ret={}/call={}/body={}",
             caps,
             self.nargs,
+            if self.types.is_empty() { String::new() } else { format!("/types={}", self.types) },
             if self.ret { "i64" } else { "none" },
             if self.trailing { "trailing_comma" } else { "plain" },
             self.body
@@ -47,7 +60,43 @@ impl Shape {
     }
     /// Nothing but termination can be observed: no return value and no mutable capture.
     pub fn trivially_observable(&self) -> bool {
-        !self.ret && self.n_mut() == 0
+        !self.ret && self.n_mut() == 0 && !self.types.contains('M')
+    }
+    /// Type class of argument k (0-based); the fixed types of the templates A-D count as by-value classes.
+    pub fn class(&self, k: usize) -> char {
+        match self.types.as_bytes().get(k) {
+            Some(&c) => c as char,
+            None => ['I', 'I', 'I', 'B'][k],
+        }
+    }
+    pub fn arg_type(&self, k: usize) -> &'static str {
+        if self.types.is_empty() {
+            return ARG_TYPES[k];
+        }
+        match self.class(k) {
+            'I' => "i64",
+            'B' => "bool",
+            'S' => "&[i64]",
+            'M' => "&mut Vec<i64>",
+            'O' if k % 2 == 0 => "Vec<i64>",
+            'O' => "String",
+            c => panic!("unknown argument class {c}"),
+        }
+    }
+    fn owned_string(&self, k: usize) -> bool {
+        self.class(k) == 'O' && k % 2 == 1
+    }
+    /// How often the driver calls the closure (and the hand-written fn) per argument tuple.
+    pub fn top_level_calls(&self) -> usize {
+        if self.body == 'T' {
+            4
+        } else {
+            2
+        }
+    }
+    /// 0 no capture, 1 shared only, 2 mutable only, 3 both kinds
+    pub fn capture_class(&self) -> usize {
+        (self.caps.contains(&false) as usize) | (self.caps.contains(&true) as usize) << 1
     }
     fn cap_name(&self, p: usize) -> String {
         format!("{}{}", if self.caps[p] { "m" } else { "s" }, p)
@@ -94,10 +143,79 @@ pub fn enumerate(plan: &[(char, Vec<usize>)]) -> Vec<Shape> {
                 for &nargs in arities {
                     for ret in [false, true] {
                         for trailing in [false, true] {
-                            v.push(Shape { caps: caps.clone(), nargs, ret, trailing, body });
+                            v.push(Shape { caps: caps.clone(), nargs, ret, trailing, body, types: String::new() });
                         }
                     }
                 }
+            }
+        }
+    }
+    v
+}
+
+/// The 31 capture patterns in the order of `enumerate`.
+pub fn capture_patterns() -> Vec<Vec<bool>> {
+    let mut v = vec![];
+    for ncaps in 0..=4usize {
+        for pat in 0..(1u32 << ncaps) {
+            v.push((0..ncaps).map(|i| (pat >> (ncaps - 1 - i)) & 1 == 1).collect());
+        }
+    }
+    v
+}
+
+/// The five "rotation" type vectors of an argument count: argument p gets class (p + r) mod 5 of I B S M O,
+/// r = 0..5.  Over the five vectors every argument position takes every class exactly once, and for two or
+/// more arguments every vector mixes classes.
+pub fn rotation_types(nargs: usize) -> Vec<String> {
+    (0..5).map(|r| (0..nargs).map(|p| CLASSES[(p + r) % 5]).collect()).collect()
+}
+
+/// Further type vectors for two or more arguments: every argument of the same class (two `&mut` arguments, two
+/// slices … — several elided lifetimes in one signature), and one non-integer class at one position with
+/// integers around it.  Vectors that are rotation vectors already are left out.
+pub fn extra_types(nargs: usize) -> Vec<String> {
+    let mut v: Vec<String> = vec![];
+    if nargs < 2 {
+        return v;
+    }
+    let rot = rotation_types(nargs);
+    for &c in &CLASSES[1..] {
+        v.push((0..nargs).map(|_| c).collect());
+    }
+    for p in 0..nargs {
+        for &c in &CLASSES[1..] {
+            v.push((0..nargs).map(|q| if q == p { c } else { 'I' }).collect());
+        }
+    }
+    v.retain(|t| !rot.contains(t));
+    v
+}
+
+/// The typed-argument family (body template 'T').  For every capture pattern and every argument count:
+/// the five rotation vectors (quick: each with one of the four (return type, call syntax) combinations,
+/// rotating so that all four occur; thorough: with all four), plus further vectors (quick: one per cell,
+/// rotating through `extra_types`; thorough: all of them, the combination rotating).
+pub fn enumerate_typed(thorough: bool) -> Vec<Shape> {
+    let mut v = vec![];
+    for (q, caps) in capture_patterns().into_iter().enumerate() {
+        for nargs in 1..=4usize {
+            let mut push = |types: &String, combo: usize| {
+                let (ret, trailing) = COMBOS[combo % 4];
+                v.push(Shape { caps: caps.clone(), nargs, ret, trailing, body: 'T', types: types.clone() });
+            };
+            for (r, types) in rotation_types(nargs).iter().enumerate() {
+                if thorough {
+                    (0..4).for_each(|c| push(types, c));
+                } else {
+                    push(types, q + nargs + r);
+                }
+            }
+            let extra = extra_types(nargs);
+            if thorough {
+                extra.iter().enumerate().for_each(|(e, types)| push(types, q + nargs + e));
+            } else if !extra.is_empty() {
+                push(&extra[q % extra.len()], q + nargs);
             }
         }
     }
@@ -196,36 +314,95 @@ impl<'a> BodyGen<'a> {
     }
     /// key from all arguments, acc from key and every shared capture.
     fn prologue(&self, ind: &str) -> String {
-        let mut s = format!("{ind}crate::tick();\n");
-        let mut key = "a1.wrapping_mul(31)".to_string();
+        let mut s = format!("{ind}super::tick();\n");
+        let typed = self.sh.body == 'T';
+        // typed arguments enter the key through a digest (an i64 computed from the argument's contents)
+        let d = |k: usize| if typed { format!("({})", self.t_digest(k)) } else { format!("a{}", k + 1) };
+        let mut key = format!("{}.wrapping_mul(31)", d(0));
         if self.sh.nargs >= 2 {
-            key += ".wrapping_add(a2.wrapping_mul(7))";
+            key += &format!(".wrapping_add({}.wrapping_mul(7))", d(1));
         }
         if self.sh.nargs >= 3 {
-            key += ".wrapping_add((a3 as i64).wrapping_mul(3))";
+            key += &format!(".wrapping_add(({} as i64).wrapping_mul(3))", d(2));
         }
         if self.sh.nargs >= 4 {
-            key += ".wrapping_add(a4 as i64)";
+            key += &format!(".wrapping_add({} as i64)", d(3));
         }
         s += &format!("{ind}let key: i64 = {key};\n{ind}let mut acc: i64 = key;\n");
+        // index into a shared Vec capture: the first argument where it is an integer, else the key
+        let index = if typed { "key" } else { "a1" };
         for p in 0..self.sh.caps.len() {
             if self.sh.caps[p] {
                 continue;
             }
             let n = self.sh.cap_name(p);
             if self.sh.cap_is_vec(p) {
-                s += &format!("{ind}acc = acc.wrapping_mul(3).wrapping_add({n}[a1.rem_euclid({n}.len() as i64) as usize]);\n");
+                s += &format!("{ind}acc = acc.wrapping_mul(3).wrapping_add({n}[{index}.rem_euclid({n}.len() as i64) as usize]);\n");
             } else {
                 s += &format!("{ind}acc = acc.wrapping_mul(3).wrapping_add(*{n});\n");
             }
         }
         s
     }
+    // ---- template T: arguments of the type classes in `sh.types` ----
+    /// An i64 computed from the contents of argument k.
+    fn t_digest(&self, k: usize) -> String {
+        let a = format!("a{}", k + 1);
+        match self.sh.class(k) {
+            'I' => a,
+            'B' => format!("{a} as i64"),
+            'O' if self.sh.owned_string(k) => format!("{a}.bytes().fold({a}.len() as i64, |h, v| h.wrapping_mul(31).wrapping_add(v as i64))"),
+            _ => format!("{a}.iter().fold({a}.len() as i64, |h, v| h.wrapping_mul(31).wrapping_add(*v))"),
+        }
+    }
+    /// The recursion ends when the first argument is exhausted (integer <= 0, false, empty slice / Vec).
+    fn t_base(&self) -> &'static str {
+        match self.sh.class(0) {
+            'I' => "a1 <= 0",
+            'B' => "!a1",
+            _ => "a1.is_empty()",
+        }
+    }
+    /// Argument k of the first (site 0) / second and last (site 1) recursive call.  The first argument gets
+    /// strictly smaller; references are passed on re-borrowed (implicitly `a`, explicitly `&mut *a`, as a
+    /// sub-slice); owned values are cloned at site 0 and MOVED into the call at site 1.
+    fn t_site(&self, k: usize, site: usize) -> String {
+        let a = format!("a{}", k + 1);
+        let s = match (self.sh.class(k), k == 0, site) {
+            ('I', true, 0) => "a1 - 1".into(),
+            ('I', true, _) => "a1 - 2".into(),
+            ('I', false, 0) => format!("{a}.wrapping_add(1)"),
+            ('I', false, _) => format!("{a}.wrapping_mul(2) ^ 1"),
+            ('B', true, 0) => "false".into(),
+            ('B', true, _) => "!a1".into(),
+            ('B', false, 0) => format!("!{a}"),
+            ('B', false, _) => a,
+            ('S', true, 0) => "&a1[1..]".into(),
+            ('S', true, _) => "&a1[a1.len().min(2)..]".into(),
+            ('S', false, 0) => a,
+            ('S', false, _) => format!("&{a}[{a}.len().min(1)..]"),
+            // the bounding `&mut Vec` was popped before the calls
+            ('M', _, 0) => a,
+            ('M', _, _) => format!("&mut *{a}"),
+            ('O', true, 0) => "a1[1..].to_vec()".into(),
+            ('O', true, _) => "{ let mut w = a1; w.pop(); w }".into(),
+            ('O', false, 0) if self.sh.owned_string(k) => format!("{a}.clone() + \"x\""),
+            ('O', false, 0) => format!("{a}.clone()"),
+            ('O', false, _) => a,
+            (c, _, _) => panic!("unknown argument class {c}"),
+        };
+        s
+    }
+    fn t_call(&self, site: usize) -> String {
+        self.call_with((0..self.sh.nargs).map(|k| self.t_site(k, site)).collect())
+    }
+
     fn ret(&self, e: &str) -> String {
+        // super::early() (a counter next to the shape modules) counts the activations that leave the body through an explicit `return`
         if self.sh.ret {
-            format!("return {e};")
+            format!("super::early(); return {e};")
         } else {
-            "return;".to_string()
+            "super::early(); return;".to_string()
         }
     }
 
@@ -269,7 +446,7 @@ impl<'a> BodyGen<'a> {
                     s += &format!("{i1}let x = {};\n", self.call(0));
                     s += &format!("{i1}if x.rem_euclid(3) == 0 {{\n");
                     s += &self.mutate("77i64", &i2);
-                    s += &format!("{i2}return x.wrapping_add(1);\n{i1}}}\n");
+                    s += &format!("{i2}{}\n{i1}}}\n", self.ret("x.wrapping_add(1)"));
                     s += &format!("{i1}let y = {};\n{i1}let z = {};\n", self.call(1), self.call(4));
                     s += &self.mutate("x ^ y.wrapping_mul(3) ^ z.wrapping_mul(7)", &i1);
                     s += &format!("{i1}x.wrapping_add(y).wrapping_sub(z).wrapping_add(acc)\n");
@@ -277,7 +454,7 @@ impl<'a> BodyGen<'a> {
                     s += &format!("{i1}{};\n", self.call(0));
                     s += &format!("{i1}if key.rem_euclid(3) == 0 {{\n");
                     s += &self.mutate("77i64", &i2);
-                    s += &format!("{i2}return;\n{i1}}}\n");
+                    s += &format!("{i2}{}\n{i1}}}\n", self.ret(""));
                     s += &format!("{i1}{};\n{i1}{};\n", self.call(1), self.call(4));
                     s += &self.mutate("key ^ 3", &i1);
                 }
@@ -346,6 +523,40 @@ impl<'a> BodyGen<'a> {
                     s += &self.mutate("key ^ 5", &i1);
                 }
             }
+            'T' => {
+                let n = self.sh.nargs;
+                s += &self.mutate("acc", &i1);
+                // a `&mut Vec` argument that does not bound the recursion is a log: every activation appends
+                for k in 1..n {
+                    if self.sh.class(k) == 'M' {
+                        s += &format!("{i1}a{}.push(acc.wrapping_add({k}));\n", k + 1);
+                    }
+                }
+                s += &format!("{i1}if {} {{\n{i2}{}\n{i1}}}\n", self.t_base(), self.ret("acc"));
+                // one that does bound it is popped before the calls and pushed back (changed) after them
+                let bounding_mut = self.sh.class(0) == 'M';
+                if bounding_mut {
+                    s += &format!("{i1}let t1 = a1.pop().unwrap();\n");
+                }
+                if r {
+                    s += &format!("{i1}let x = {};\n", self.t_call(0));
+                    s += &self.mutate("x", &i1);
+                    s += &format!("{i1}let y = {};\n", self.t_call(1));
+                    if bounding_mut {
+                        s += &format!("{i1}a1.push(t1.wrapping_add(x).wrapping_sub(y));\n");
+                    }
+                    s += &self.mutate("x ^ y", &i1);
+                    s += &format!("{i1}x.wrapping_mul(3).wrapping_add(y).wrapping_add(acc)\n");
+                } else {
+                    s += &format!("{i1}{};\n", self.t_call(0));
+                    s += &self.mutate("key ^ 1", &i1);
+                    s += &format!("{i1}{};\n", self.t_call(1));
+                    if bounding_mut {
+                        s += &format!("{i1}a1.push(t1 ^ key);\n");
+                    }
+                    s += &self.mutate("key ^ 2", &i1);
+                }
+            }
             other => panic!("unknown body template {other}"),
         }
         s
@@ -356,7 +567,7 @@ impl<'a> BodyGen<'a> {
 pub fn macro_invocation(sh: &Shape, ind: &str) -> String {
     let caps: Vec<String> =
         (0..sh.caps.len()).map(|p| format!("{}: {}{}", sh.cap_name(p), if sh.caps[p] { "&mut " } else { "&" }, sh.cap_type(p))).collect();
-    let args: Vec<String> = (0..sh.nargs).map(|i| format!("a{}: {}", i + 1, ARG_TYPES[i])).collect();
+    let args: Vec<String> = (0..sh.nargs).map(|i| format!("a{}: {}", i + 1, sh.arg_type(i))).collect();
     let i1 = format!("{ind}    ");
     let mut s = format!("rec_lambda!(f, |{}| {{\n", caps.join(", "));
     s += &format!("{i1}|{}|{} {{\n", args.join(", "), if sh.ret { " -> i64" } else { "" });
@@ -406,7 +617,7 @@ pub fn has_mutating_argument(invocation: &str) -> bool {
 
 /// The equivalent hand-written recursive function: arguments, then the captures in written order.
 pub fn hand_fn(sh: &Shape, name: &str, ind: &str) -> String {
-    let mut params: Vec<String> = (0..sh.nargs).map(|i| format!("a{}: {}", i + 1, ARG_TYPES[i])).collect();
+    let mut params: Vec<String> = (0..sh.nargs).map(|i| format!("a{}: {}", i + 1, sh.arg_type(i))).collect();
     for p in 0..sh.caps.len() {
         params.push(format!("{}: {}{}", sh.cap_name(p), if sh.caps[p] { "&mut " } else { "&" }, sh.cap_type(p)));
     }
@@ -415,6 +626,111 @@ pub fn hand_fn(sh: &Shape, name: &str, ind: &str) -> String {
     s += &BodyGen { sh, hand: Some(name) }.body(ind);
     s += &format!("{ind}}}\n");
     s
+}
+
+/// `()`, `(a,)`, `(a, b)`
+fn tuple(parts: &[String]) -> String {
+    match parts.len() {
+        1 => format!("({},)", parts[0]),
+        _ => format!("({})", parts.join(", ")),
+    }
+}
+
+/// Driver of a typed-argument shape (template T), the same text for the closure and for the hand-written fn
+/// except for the call itself (`call(arguments)`).  The data behind the arguments lives in the driver:
+///   call 1;  the data is MUTATED (push, first element changed; integers and bools change value);  call 2;
+///   call 3 on short-lived temporaries that are dropped right after it;  the data is dropped and RECREATED
+///   (assignment of a new Vec / String);  call 4.
+/// A reference argument therefore borrows for a different, non-overlapping region at every call, as is
+/// ordinary for the hand-written fn.  Result: ((r1, r2, data passed by `&mut` after call 2, r3, temporaries
+/// passed by `&mut` after call 3, r4), (captures…), (data passed by `&mut` at the end…)).
+struct TypedDriver {
+    /// declarations of the data behind the arguments
+    data: String,
+    /// the four calls with the changes in between (inside the scope of the closure)
+    calls: String,
+    /// the expression rendering the result
+    show: String,
+}
+
+fn typed_calls(sh: &Shape, call: &dyn Fn(&[String]) -> String, dind: &str, ind: &str) -> TypedDriver {
+    let n = sh.nargs;
+    let mut decl = String::new();
+    let mut mutate = String::new();
+    let mut temps = String::new();
+    let mut recreate = String::new();
+    let (mut pass, mut pass_temp, mut mut_temps, mut mut_data) = (vec![], vec![], vec![], vec![]);
+    for k in 0..n {
+        let p = k + 1;
+        match sh.class(k) {
+            'I' => {
+                let seed = ["a1".to_string(), "a2".into(), "(a3 % 1000) as i64".into(), "a4 as i64 + 5".into()][k].clone();
+                decl += &format!("{dind}let mut v{p}: i64 = {seed};\n");
+                if k == 0 {
+                    mutate += &format!("{ind}v1 -= 1;\n");
+                    recreate += &format!("{ind}v1 = a1.rem_euclid(4) + 1;\n");
+                } else {
+                    mutate += &format!("{ind}v{p} ^= 1;\n");
+                    recreate += &format!("{ind}v{p} = v{p}.wrapping_mul(3) + {p};\n");
+                }
+                pass.push(format!("v{p}"));
+                pass_temp.push(format!("v{p}"));
+            }
+            'B' => {
+                let seed = ["a1 % 2 == 1".to_string(), "(a1 + 2) % 2 == 0".into(), "(a1 + 3) % 2 == 0".into(), "a4".into()][k].clone();
+                decl += &format!("{dind}let mut v{p}: bool = {seed};\n");
+                mutate += &format!("{ind}v{p} = !v{p};\n");
+                recreate += &format!("{ind}v{p} = {};\n", if k == 0 { "true" } else { "a1 % 3 == 0" });
+                pass.push(format!("v{p}"));
+                pass_temp.push(format!("v{p}"));
+            }
+            'O' if sh.owned_string(k) => {
+                decl += &format!("{dind}let mut d{p}: String = \"ab\".repeat((a1 + {p}).rem_euclid(3) as usize + 1);\n");
+                mutate += &format!("{ind}d{p}.push('z');\n");
+                recreate += &format!("{ind}d{p} = format!(\"q{{}}\", a2);\n");
+                pass.push(format!("d{p}.clone()"));
+                pass_temp.push("String::from(\"tmp\")".to_string());
+            }
+            c @ ('S' | 'M' | 'O') => {
+                // the first argument bounds the recursion: at most 6 elements at any call
+                let len = if k == 0 { "a1.rem_euclid(5)".to_string() } else { format!("(a1 + {p}).rem_euclid(3) + 1") };
+                decl += &format!("{dind}let mut d{p}: Vec<i64> = (0..{len}).map(|i| i * 3 + a2 + {p}).collect();\n");
+                mutate += &format!("{ind}d{p}.push(11 + {p});\n{ind}if let Some(v) = d{p}.first_mut() {{\n{ind}    *v ^= 5;\n{ind}}}\n");
+                recreate += &format!("{ind}d{p} = vec![a2 - {p}, 8, a1];\n");
+                match c {
+                    'S' => {
+                        temps += &format!("{ind}    let t{p}: Vec<i64> = vec![{p}, 4, a2];\n");
+                        pass.push(format!("&d{p}"));
+                        pass_temp.push(format!("&t{p}"));
+                    }
+                    'M' => {
+                        temps += &format!("{ind}    let mut t{p}: Vec<i64> = vec![{p}, 4, a2];\n");
+                        pass.push(format!("&mut d{p}"));
+                        pass_temp.push(format!("&mut t{p}"));
+                        mut_temps.push(format!("&t{p}"));
+                        mut_data.push(format!("&d{p}"));
+                    }
+                    _ => {
+                        pass.push(format!("d{p}.clone()"));
+                        pass_temp.push(format!("vec![{p}, 4, a2]"));
+                    }
+                }
+            }
+            c => panic!("unknown argument class {c}"),
+        }
+    }
+    let mut s = String::new();
+    s += &format!("{ind}let r1 = {};\n", call(&pass));
+    s += &mutate;
+    s += &format!("{ind}let r2 = {};\n", call(&pass));
+    s += &format!("{ind}let after2 = format!(\"{{:?}}\", {});\n", tuple(&mut_data));
+    s += &format!("{ind}let (r3, t3) = {{\n{temps}{ind}    let r = {};\n{ind}    (r, format!(\"{{:?}}\", {}))\n{ind}}};\n", call(&pass_temp), tuple(&mut_temps));
+    s += &recreate;
+    s += &format!("{ind}let r4 = {};\n", call(&pass));
+    // the caller closes the scope of the closure and then renders `show`
+    let caps: Vec<String> = (0..sh.caps.len()).map(|p| format!("&{}", sh.cap_name(p))).collect();
+    let show = format!("format!(\"{{:?}}\", ((r1, r2, after2, r3, t3, r4), {}, {}))", tuple(&caps), tuple(&mut_data));
+    TypedDriver { data: decl, calls: s, show }
 }
 
 fn shape_module(id: usize, sh: &Shape, with_macro: bool) -> String {
@@ -432,6 +748,47 @@ fn shape_module(id: usize, sh: &Shape, with_macro: bool) -> String {
             );
         }
     };
+    let lam = if with_macro {
+        format!("            let mut lam = {};\n", macro_invocation(sh, "            "))
+    } else {
+        // control variant (used only to tell a generator defect from a macro defect): an ordinary closure
+        // around the hand-written function, no macro involved
+        let ps: Vec<String> = (0..n).map(|i| format!("a{}: {}", i + 1, sh.arg_type(i))).collect();
+        let mut all: Vec<String> = (1..=n).map(|i| format!("a{i}")).collect();
+        for p in 0..sh.caps.len() {
+            all.push(format!("{}{}", if sh.caps[p] { "&mut " } else { "&" }, sh.cap_name(p)));
+        }
+        format!("            let mut lam = |{}| hand({});\n", ps.join(", "), all.join(", "))
+    };
+    let caps_pass: Vec<String> = (0..sh.caps.len()).map(|p| format!("{}{}", if sh.caps[p] { "&mut " } else { "&" }, sh.cap_name(p))).collect();
+    let with = |a: &[String]| {
+        let mut all = a.to_vec();
+        all.extend(caps_pass.iter().cloned());
+        all.join(", ")
+    };
+    let call_lam = |a: &[String]| format!("lam({})", a.join(", "));
+    let call_hand = |a: &[String]| format!("hand({})", with(a));
+
+    if sh.body == 'T' {
+        // the closure is created once and called four times, the data behind its arguments changing in between
+        for (name, is_lam) in [("run_macro", true), ("run_hand", false)] {
+            let call: &dyn Fn(&[String]) -> String = if is_lam { &call_lam } else { &call_hand };
+            let TypedDriver { data, calls, show } = typed_calls(sh, call, "        ", "            ");
+            s += &format!("\n    pub fn {name}(a1: i64, a2: i64, a3: u32, a4: bool) -> String {{\n");
+            decl(&mut s);
+            s += &data;
+            s += "        let (r1, r2, after2, r3, t3, r4) = {\n";
+            if is_lam {
+                s += &lam;
+            }
+            s += &calls;
+            s += "            (r1, r2, after2, r3, t3, r4)\n        };\n";
+            s += &format!("        {show}\n    }}\n");
+        }
+        s += "}\n\n";
+        return s;
+    }
+
     let show = {
         let mut parts = vec!["r1".to_string(), "r2".to_string()];
         for p in 0..sh.caps.len() {
@@ -447,64 +804,40 @@ fn shape_module(id: usize, sh: &Shape, with_macro: bool) -> String {
     s += "\n    pub fn run_macro(a1: i64, a2: i64, a3: u32, a4: bool) -> String {\n";
     decl(&mut s);
     s += "        let (r1, r2) = {\n";
-    if with_macro {
-        s += &format!("            let mut lam = {};\n", macro_invocation(sh, "            "));
-    } else {
-        // control variant (used only to tell a generator defect from a macro defect): an ordinary closure
-        // around the hand-written function, no macro involved
-        let ps: Vec<String> = (0..n).map(|i| format!("a{}: {}", i + 1, ARG_TYPES[i])).collect();
-        let mut all: Vec<String> = (1..=n).map(|i| format!("a{i}")).collect();
-        for p in 0..sh.caps.len() {
-            all.push(format!("{}{}", if sh.caps[p] { "&mut " } else { "&" }, sh.cap_name(p)));
-        }
-        s += &format!("            let mut lam = |{}| hand({});\n", ps.join(", "), all.join(", "));
-    }
-    s += &format!("            let r1 = lam({});\n            let r2 = lam({});\n            (r1, r2)\n        }};\n", first.join(", "), second.join(", "));
+    s += &lam;
+    s += &format!("            let r1 = {};\n            let r2 = {};\n            (r1, r2)\n        }};\n", call_lam(&first), call_lam(&second));
     s += &show;
     s += "    }\n";
 
     // (b) the hand-written version
-    let caps_pass: Vec<String> = (0..sh.caps.len()).map(|p| format!("{}{}", if sh.caps[p] { "&mut " } else { "&" }, sh.cap_name(p))).collect();
-    let with = |a: &Vec<String>| {
-        let mut all = a.clone();
-        all.extend(caps_pass.iter().cloned());
-        all.join(", ")
-    };
     s += "\n    pub fn run_hand(a1: i64, a2: i64, a3: u32, a4: bool) -> String {\n";
     decl(&mut s);
-    s += &format!("        let r1 = hand({});\n        let r2 = hand({});\n", with(&first), with(&second));
+    s += &format!("        let r1 = {};\n        let r2 = {};\n", call_hand(&first), call_hand(&second));
     s += &show;
     s += "    }\n}\n\n";
     s
 }
 
-/// Complete `src/main.rs` of a generated package.  `shapes` = (id, shape); the binary prints one JSON line
-/// per shape with id >= argv[1] (default 0), in the given order.  `with_macro = false` gives the control
-/// variant in which no `rec_lambda!` invocation occurs (same hand-written functions and driver).
-pub fn program(shapes: &[(usize, Shape)], thorough: bool, with_macro: bool) -> String {
-    program_lines(shapes, thorough, with_macro).0
-}
+const ALLOW: &str = "#![allow(warnings)]\n#![allow(unused, unused_mut, unused_variables, unused_assignments, dead_code, unreachable_code, clippy::all)]\n\n";
 
-/// As `program`, plus the 1-based line range (first, last) of every shape's module, used to attribute
-/// compiler diagnostics to shapes.
-pub fn program_lines(shapes: &[(usize, Shape)], thorough: bool, with_macro: bool) -> (String, Vec<(usize, usize, usize)>) {
+/// A generated package = several LIBRARY crates, each holding the modules of some shapes (so that the compiler
+/// front-end works on them at the same time), and one binary that links them all and runs every shape, in the
+/// order of the ids, on its main thread.
+///
+/// Source of one library (without the crate-level attributes): two counters, one module per shape, the table
+/// of its shapes.  Also returns the 1-based line range (first, last) of every shape's module relative to the
+/// first line of this text, used to attribute compiler diagnostics to shapes.
+pub fn lib_source(shapes: &[(usize, Shape)], with_macro: bool) -> (String, Vec<(usize, usize, usize)>) {
     let mut lines = vec![];
     let mut s = String::new();
-    s += "// GENERATED by eng_lambda (C20) - do not edit\n";
-    s += "#![allow(warnings)]\n#![allow(unused, unused_mut, unused_variables, unused_assignments, dead_code, unreachable_code, clippy::all)]\n\n";
     s += "use std::sync::atomic::{AtomicU64, Ordering};\n";
     s += "static CALLS: AtomicU64 = AtomicU64::new(0);\n";
-    s += "pub fn tick() {\n    CALLS.fetch_add(1, Ordering::Relaxed);\n}\n\n";
-    s += "type Tuple = (i64, i64, u32, bool);\ntype Runner = fn(i64, i64, u32, bool) -> String;\n\n";
-    for nargs in 1..=4 {
-        let g = grid(thorough, nargs);
-        s += &format!("static GRID_{nargs}: &[Tuple] = &[\n");
-        for t in &g {
-            s += &format!("    ({}, {}, {}, {}),\n", t.0, t.1, t.2, t.3);
-        }
-        s += "];\n";
-    }
-    s += "\n";
+    s += "pub fn tick() {\n    CALLS.fetch_add(1, Ordering::Relaxed);\n}\n";
+    s += "static EARLY: AtomicU64 = AtomicU64::new(0);\n";
+    s += "pub fn early() {\n    EARLY.fetch_add(1, Ordering::Relaxed);\n}\n";
+    s += "/// (body executions, activations left through an explicit `return`) so far\n";
+    s += "pub fn counters() -> (u64, u64) {\n    (CALLS.load(Ordering::Relaxed), EARLY.load(Ordering::Relaxed))\n}\n";
+    s += "pub type Runner = fn(i64, i64, u32, bool) -> String;\n\n";
     let mut line = s.matches('\n').count();
     for (id, sh) in shapes {
         let m = shape_module(*id, sh, with_macro);
@@ -513,13 +846,42 @@ pub fn program_lines(shapes: &[(usize, Shape)], thorough: bool, with_macro: bool
         line += n;
         s += &m;
     }
-    s += "static SHAPES: &[(u64, usize, Runner, Runner)] = &[\n";
+    s += "pub static SHAPES: &[(u64, usize, Runner, Runner)] = &[\n";
     for (id, sh) in shapes {
         s += &format!("    ({id}, {}, shape_{id}::run_macro, shape_{id}::run_hand),\n", sh.nargs);
     }
-    s += "];\n\n";
-    s += r#"fn run_all(f: Runner, grid: &[Tuple]) -> (Vec<String>, u64) {
-    let before = CALLS.load(Ordering::Relaxed);
+    s += "];\n";
+    (s, lines)
+}
+
+/// A library crate's `src/lib.rs`; the line ranges are those of the file.
+pub fn lib_file(shapes: &[(usize, Shape)], with_macro: bool) -> (String, Vec<(usize, usize, usize)>) {
+    let head = format!("// GENERATED by eng_lambda (C20) - do not edit\n{ALLOW}");
+    let off = head.matches('\n').count();
+    let (body, lines) = lib_source(shapes, with_macro);
+    (head + &body, lines.into_iter().map(|(id, a, b)| (id, a + off, b + off)).collect())
+}
+
+/// The driver: prints one JSON line per shape with id >= argv[1] (default 0), in the order of the ids.
+/// `parts` = paths of the crates / modules that hold the shapes.
+pub fn main_source(parts: &[String], thorough: bool) -> String {
+    let mut s = String::new();
+    s += "type Tuple = (i64, i64, u32, bool);\ntype Runner = fn(i64, i64, u32, bool) -> String;\ntype Counters = fn() -> (u64, u64);\n\n";
+    for nargs in 1..=4 {
+        let g = grid(thorough, nargs);
+        s += &format!("static GRID_{nargs}: &[Tuple] = &[\n");
+        for t in &g {
+            s += &format!("    ({}, {}, {}, {}),\n", t.0, t.1, t.2, t.3);
+        }
+        s += "];\n";
+    }
+    s += "\nfn shapes() -> Vec<(u64, usize, Runner, Runner, Counters)> {\n    let mut v: Vec<(u64, usize, Runner, Runner, Counters)> = vec![];\n";
+    for p in parts {
+        s += &format!("    v.extend({p}::SHAPES.iter().map(|&(id, n, m, h)| (id, n, m, h, {p}::counters as Counters)));\n");
+    }
+    s += "    v.sort_by_key(|e| e.0);\n    v\n}\n\n";
+    s += r#"fn run_all(f: Runner, grid: &[Tuple], counters: Counters) -> (Vec<String>, u64, u64) {
+    let (calls, early) = counters();
     let mut out = vec![];
     for &(a1, a2, a3, a4) in grid {
         out.push(match std::panic::catch_unwind(move || f(a1, a2, a3, a4)) {
@@ -527,19 +889,20 @@ pub fn program_lines(shapes: &[(usize, Shape)], thorough: bool, with_macro: bool
             Err(_) => "PANIC".to_string(),
         });
     }
-    (out, CALLS.load(Ordering::Relaxed) - before)
+    let after = counters();
+    (out, after.0 - calls, after.1 - early)
 }
 
 fn quote(v: &[String]) -> String {
-    // the strings are Debug renderings of integers, vectors of integers and unit: nothing to escape
-    let q: Vec<String> = v.iter().map(|s| format!("\"{}\"", s)).collect();
+    // the strings are Debug renderings of integers, vectors of integers, unit and ASCII strings
+    let q: Vec<String> = v.iter().map(|s| format!("\"{}\"", s.replace('\\', "\\\\").replace('"', "\\\""))).collect();
     format!("[{}]", q.join(","))
 }
 
 fn main() {
     std::panic::set_hook(Box::new(|_| {}));
     let from: u64 = std::env::args().nth(1).and_then(|s| s.parse().ok()).unwrap_or(0);
-    for &(id, nargs, m, h) in SHAPES {
+    for (id, nargs, m, h, counters) in shapes() {
         if id < from {
             continue;
         }
@@ -551,39 +914,39 @@ fn main() {
         };
         // announce before running, so that a crash (stack overflow) is attributable to a shape
         println!("{{\"begin\":{}}}", id);
-        let (rm, cm) = run_all(m, grid);
-        let (rh, ch) = run_all(h, grid);
+        let (rm, cm, em) = run_all(m, grid, counters);
+        let (rh, ch, eh) = run_all(h, grid, counters);
         println!(
-            "{{\"id\":{},\"macro\":{},\"hand\":{},\"calls_macro\":{},\"calls_hand\":{}}}",
+            "{{\"id\":{},\"macro\":{},\"hand\":{},\"calls_macro\":{},\"calls_hand\":{},\"early_macro\":{},\"early_hand\":{}}}",
             id,
             quote(&rm),
             quote(&rh),
             cm,
-            ch
+            ch,
+            em,
+            eh
         );
     }
     println!("{{\"done\":true}}");
 }
 "#;
-    (s, lines)
+    s
 }
 
-pub fn cargo_toml(pkg_name: &str, crate_path: &str) -> String {
-    format!(
-        r#"# GENERATED by eng_lambda (C20)
-[package]
-name = "{pkg_name}"
-version = "0.0.0"
-edition = "2021"
-publish = false
+/// The binary's `src/main.rs`.
+pub fn main_file(lib_names: &[String], thorough: bool) -> String {
+    format!("// GENERATED by eng_lambda (C20) - do not edit\n{ALLOW}{}", main_source(lib_names, thorough))
+}
 
-# standalone: not a member of /verif/harness's workspace
-[workspace]
+/// A complete single-file program (shape modules and driver in one crate), used where a shape is compiled on
+/// its own with rustc.  `with_macro = false` gives the control variant in which no `rec_lambda!` invocation
+/// occurs (same hand-written functions and driver).
+pub fn program(shapes: &[(usize, Shape)], thorough: bool, with_macro: bool) -> String {
+    let (lib, _) = lib_source(shapes, with_macro);
+    format!("// GENERATED by eng_lambda (C20) - do not edit\n{ALLOW}mod part {{\n{lib}}}\n\n{}", main_source(&["part".to_string()], thorough))
+}
 
-[dependencies]
-rlib_lambda = {{ path = "{crate_path}" }}
-
-[profile.release]
+const PROFILES: &str = r#"[profile.release]
 opt-level = 0
 debug = false
 incremental = false
@@ -591,6 +954,29 @@ codegen-units = 16
 overflow-checks = false
 debug-assertions = false
 panic = "unwind"
-"#
+
+# the same with what `cargo build` / `cargo test` switch on by default; `cfg(debug_assertions)` inside a
+# macro_rules! macro is evaluated in the crate that invokes it, i.e. in these packages
+[profile.dbg]
+inherits = "release"
+overflow-checks = true
+debug-assertions = true
+"#;
+
+/// Manifest of the binary = root of the generated workspace (standalone: not a member of /verif/harness's).
+pub fn root_cargo_toml(pkg_name: &str, lib_names: &[String]) -> String {
+    let members: Vec<String> = lib_names.iter().map(|l| format!("\"{l}\"")).collect();
+    let deps: Vec<String> = lib_names.iter().map(|l| format!("{l} = {{ path = \"{l}\" }}\n")).collect();
+    format!(
+        "# GENERATED by eng_lambda (C20)\n[package]\nname = \"{pkg_name}\"\nversion = \"0.0.0\"\nedition = \"2021\"\npublish = false\n\n[workspace]\nmembers = [{}]\n\n[dependencies]\n{}\n{PROFILES}",
+        members.join(", "),
+        deps.concat()
+    )
+}
+
+/// Manifest of one library of shapes.
+pub fn lib_cargo_toml(lib_name: &str, crate_path: &str) -> String {
+    format!(
+        "# GENERATED by eng_lambda (C20)\n[package]\nname = \"{lib_name}\"\nversion = \"0.0.0\"\nedition = \"2021\"\npublish = false\n\n[dependencies]\nrlib_lambda = {{ path = \"{crate_path}\" }}\n"
     )
 }
